@@ -8,7 +8,12 @@ C15 — property theorems. The statement (properties.jsonl):
   data or leave stale bytes when patched in place, and a patched asset reads back Valid.
 
 The theorems quantify over every flow: any pre-added DataHash, any exclusion list (any
-length, any values), any dynamic assertions (any reserve and content sizes), any `base`.
+length, any values), any dynamic assertions (any reserve, content size and content kind), any
+`base`. `sign_embeddable`'s three-way size handling is characterised completely
+(`embeddable_contract_iff`): the contract holds for every signed size exactly when the
+placeholder length is still recorded in the Builder value *and* the binding is guarded
+(DataHash or BoxHash). The two ways out are stated as theorems about the same model
+(`flow_lost_unpadded`, `unguarded_may_be_longer`) and replayed on the implementation.
 (Read-back validity is observed end to end by the correspondence harness.)
 -/
 namespace C2pa.C15
@@ -60,31 +65,93 @@ theorem fits_iff (len jumbf : Nat) :
     · have : jumbf = len := by omega
       simp [this]
 
-/-- Without the DataHash guard (BMFF placeholder workflow: the caller reserves room for
-Merkle leaves beyond the placeholder) a longer manifest is returned as it is — the size
-contract is specific to data-hash formats. -/
+/-- Without the guard (BMFF placeholder workflow: the caller reserves room for Merkle leaves
+beyond the placeholder) a longer manifest is returned as it is — the size contract is specific
+to data-hash formats. -/
 theorem bmff_may_be_longer : signEmbeddable (some 100) false 140 = .ok 140 := by decide
+
+/-- **unguarded_may_be_longer.** Every signed JUMBF longer than the placeholder is returned
+unchanged when the binding is not guarded. -/
+theorem unguarded_may_be_longer (len j : Nat) (h : len < j) :
+    signEmbeddable (some len) false j = .ok j := by
+  unfold signEmbeddable
+  have h2 : ¬ j < len := by omega
+  simp [h2]
+
+/-- **lost_len_not_padded.** A Builder value without a recorded placeholder length ("Mode 2":
+`placeholder()` never ran on it, e.g. it was rebuilt from its JSON definition) returns the
+signed JUMBF unpadded, whatever its size and binding. -/
+theorem lost_len_not_padded (g : Bool) (j : Nat) : signEmbeddable none g j = .ok j := rfl
+
+/-- **embeddable_contract_iff.** "For every size of the signed JUMBF the result is an error or
+has exactly length `L`" holds iff the length `L` is recorded and the binding is guarded. -/
+theorem embeddable_contract_iff (p : Option Nat) (g : Bool) (L : Nat) :
+    (∀ j, signEmbeddable p g j = .tooLarge ∨ signEmbeddable p g j = .ok L) ↔
+      (p = some L ∧ g = true) := by
+  constructor
+  · intro h
+    cases p with
+    | none =>
+      have := h (L + 1)
+      simp [signEmbeddable] at this
+    | some len =>
+      have h0 := h 0
+      have hlen : len = L := by
+        by_cases hz : 0 < len
+        · simp [signEmbeddable, hz] at h0; exact h0
+        · have : len = 0 := by omega
+          subst this
+          simp [signEmbeddable] at h0; exact h0
+      subst hlen
+      cases g with
+      | true => exact ⟨rfl, rfl⟩
+      | false =>
+        have := h (len + 1)
+        rw [unguarded_may_be_longer len (len + 1) (by omega)] at this
+        simp at this
+  · rintro ⟨rfl, rfl⟩ j
+    exact embeddable_len L j
+
+example : signEmbeddable (some 248) true 107 = .ok 248 := by decide
+example : signEmbeddable (some 248) true 249 = .tooLarge := by decide
 
 /-! ### whole flows -/
 
 /-- **flow_len.** Every run of the placeholder workflow ends in an error or returns exactly
 as many JUMBF bytes as `placeholder` did (hence the same number of composed bytes). -/
-theorem flow_len (f : Flow) : f.run = .tooLarge ∨ f.run = .ok f.placeholderLen :=
-  embeddable_len _ _
+theorem flow_len (f : Flow) (hk : f.lost = false) :
+    f.run = .tooLarge ∨ f.run = .ok f.placeholderLen := by
+  unfold Flow.run Flow.recorded
+  rw [hk]
+  exact embeddable_len _ _
+
+/-- **flow_lost_unpadded.** When the recorded length is lost the flow returns the signed JUMBF
+as it is (never an error, never padded). -/
+theorem flow_lost_unpadded (f : Flow) (hk : f.lost = true) : f.run = .ok f.signedLen := by
+  unfold Flow.run Flow.recorded
+  rw [hk]
+  rfl
 
 /-- **flow_fits_iff.** It succeeds iff the final DataHash assertion plus the dynamic
 assertion contents are not larger than what the placeholder reserved for them; `base`,
 i.e. everything else in the manifest, does not matter. -/
-theorem flow_fits_iff (f : Flow) :
+theorem flow_fits_iff (f : Flow) (hk : f.lost = false) :
     f.run = .ok f.placeholderLen ↔
-      dhSize f.dhFinal + (f.das.map (fun d => d.2)).sum ≤
-        dhSize f.dh0 + (f.das.map (fun d => daPlaceholder d.1)).sum := by
-  unfold Flow.run
+      dhSize f.dhFinal + (f.das.map daFinal).sum ≤
+        dhSize f.dh0 + (f.das.map (fun d => daPlaceholder d.reserve)).sum := by
+  unfold Flow.run Flow.recorded
+  rw [hk]
+  simp only [Bool.false_eq_true, if_false]
   rw [fits_iff]
   unfold Flow.signedLen Flow.placeholderLen
   omega
 
-example : (⟨0, 6, 32, none, some [⟨2, 3349⟩], true, []⟩ : Flow).run = .ok 248 := by decide
+example : (⟨0, 6, 32, none, some [⟨2, 3349⟩], true, [], false⟩ : Flow).run = .ok 248 := by decide
+-- a pre-added DataHash (one exclusion, 20 bytes of padding) and two dynamic assertions
+example : (⟨0, 6, 32, some ⟨some [⟨0, 2⟩], some 14, some 6, 32, 20, none⟩, some [⟨2, 3349⟩], true,
+    [⟨500, 480, .cbor⟩, ⟨64, 70, .binary⟩], false⟩ : Flow).run = .ok 688 := by decide
+example : (⟨0, 6, 32, some ⟨some [⟨0, 2⟩], some 14, some 6, 32, 0, none⟩, some [⟨2, 3349⟩], true,
+    [], false⟩ : Flow).run = .tooLarge := by decide
 
 /-! ### closed form for exclusion lists against the SDK's own placeholder -/
 
@@ -102,7 +169,7 @@ theorem dhSize_placeholder (a d : Nat) :
 `update_hash_from_stream`, no dynamic assertions. -/
 def documented (base algLen digestLen : Nat) (l : List Range) : Flow :=
   { base := base, defAlgLen := algLen, digestLen := digestLen, pre := none,
-    excl := some l, rehash := true, das := [] }
+    excl := some l, rehash := true, das := [], lost := false }
 
 /-- **exclusions_fit_iff.** In the documented flow a non-empty exclusion list fits iff the
 CBOR of the list is at most the 161 bytes of the ten dummy ranges:
@@ -110,7 +177,7 @@ CBOR of the list is at most the 161 bytes of the ten dummy ranges:
 theorem exclusions_fit_iff (base algLen digestLen : Nat) (l : List Range) (hne : l ≠ []) :
     (documented base algLen digestLen l).run = .ok (documented base algLen digestLen l).placeholderLen ↔
       exclSize l ≤ 161 := by
-  rw [flow_fits_iff]
+  rw [flow_fits_iff _ rfl]
   have hemp : l.isEmpty = false := by
     cases l with
     | nil => exact absurd rfl hne
@@ -131,7 +198,7 @@ theorem exclusions_fit_iff (base algLen digestLen : Nat) (l : List Range) (hne :
 theorem no_exclusions_fit (base algLen digestLen : Nat) :
     (documented base algLen digestLen []).run =
       .ok (documented base algLen digestLen []).placeholderLen := by
-  rw [flow_fits_iff]
+  rw [flow_fits_iff _ rfl]
   have h0 : dhSize (documented base algLen digestLen []).dh0 =
       173 + optField 4 (some 14) + optField 3 (some algLen) + (5 + str digestLen) + (4 + str 0) :=
     dhSize_placeholder algLen digestLen
@@ -201,9 +268,109 @@ theorem ten_exclusions_24_1_too_large (base algLen digestLen : Nat) :
     (documented base algLen digestLen (List.replicate 10 ⟨24, 1⟩)).run = .tooLarge := by
   have hne : List.replicate 10 (⟨24, 1⟩ : Range) ≠ [] := by decide
   have hnot : ¬ exclSize (List.replicate 10 ⟨24, 1⟩) ≤ 161 := by decide
-  rcases flow_len (documented base algLen digestLen (List.replicate 10 ⟨24, 1⟩)) with h | h
+  rcases flow_len (documented base algLen digestLen (List.replicate 10 ⟨24, 1⟩)) rfl with h | h
   · exact h
   · exact absurd ((exclusions_fit_iff _ _ _ _ hne).1 h) hnot
+
+
+/-! ### sharpness of the exclusion-list bounds -/
+
+theorem rangeSize_ge (r : Range) : 16 ≤ rangeSize r := by
+  have := hdr_pos r.start; have := hdr_pos r.length
+  unfold rangeSize; omega
+
+theorem sum_rangeSize_ge (l : List Range) : 16 * l.length ≤ (l.map rangeSize).sum := by
+  induction l with
+  | nil => simp
+  | cons a t ih =>
+    have := rangeSize_ge a
+    simp only [List.map_cons, List.sum_cons, List.length_cons]
+    omega
+
+theorem rangeSize_eq_16_iff (r : Range) : rangeSize r = 16 ↔ r.start < 24 ∧ r.length < 24 := by
+  unfold rangeSize
+  rcases hdr_cases r.start with h | h | h | h | h <;>
+  rcases hdr_cases r.length with g | g | g | g | g <;> omega
+
+/-- The sum is minimal (16 per range) iff every value is below 24. -/
+theorem sum_rangeSize_min_iff (l : List Range) :
+    (l.map rangeSize).sum = 16 * l.length ↔ ∀ r ∈ l, r.start < 24 ∧ r.length < 24 := by
+  induction l with
+  | nil => simp
+  | cons a t ih =>
+    have ha := rangeSize_ge a
+    have ht := sum_rangeSize_ge t
+    simp only [List.map_cons, List.sum_cons, List.length_cons, List.mem_cons, forall_eq_or_imp]
+    rw [← ih, ← rangeSize_eq_16_iff]
+    omega
+
+/-- **ten_exclusions_fit_iff.** Exactly ten exclusions fit iff every start and every length is
+below 24 — the two directions of "the placeholder reserves one-byte integers". -/
+theorem ten_exclusions_fit_iff (base algLen digestLen : Nat) (l : List Range) (h10 : l.length = 10) :
+    (documented base algLen digestLen l).run =
+        .ok (documented base algLen digestLen l).placeholderLen ↔
+      ∀ r ∈ l, r.start < 24 ∧ r.length < 24 := by
+  have hne : l ≠ [] := by intro h; simp [h] at h10
+  rw [exclusions_fit_iff _ _ _ _ hne, ← sum_rangeSize_min_iff]
+  have hs := sum_rangeSize_ge l
+  have hh : hdr l.length = 1 := by simp [hdr, h10]
+  unfold exclSize
+  omega
+
+/-- **eleven_or_more_too_large.** More than ten exclusions never fit the SDK's own
+placeholder, whatever their values: the result is the error. -/
+theorem eleven_or_more_too_large (base algLen digestLen : Nat) (l : List Range)
+    (h11 : 11 ≤ l.length) :
+    (documented base algLen digestLen l).run = .tooLarge := by
+  have hne : l ≠ [] := by intro h; simp [h] at h11
+  have hnot : ¬ exclSize l ≤ 161 := by
+    have hs := sum_rangeSize_ge l
+    have := hdr_pos l.length
+    unfold exclSize
+    omega
+  rcases flow_len (documented base algLen digestLen l) rfl with h | h
+  · exact h
+  · exact absurd ((exclusions_fit_iff _ _ _ _ hne).1 h) hnot
+
+/-- **six_may_overflow.** `up_to_five_exclusions_fit` is sharp: six ranges with 64-bit values
+(32 bytes each, 193 > 161) end in the error. -/
+theorem six_may_overflow (base algLen digestLen : Nat) :
+    (documented base algLen digestLen (List.replicate 6 ⟨4294967296, 4294967296⟩)).run = .tooLarge := by
+  have hne : List.replicate 6 (⟨4294967296, 4294967296⟩ : Range) ≠ [] := by decide
+  have hnot : ¬ exclSize (List.replicate 6 ⟨4294967296, 4294967296⟩) ≤ 161 := by decide
+  rcases flow_len (documented base algLen digestLen (List.replicate 6 ⟨4294967296, 4294967296⟩)) rfl with h | h
+  · exact h
+  · exact absurd ((exclusions_fit_iff _ _ _ _ hne).1 h) hnot
+
+/-- The documented flow on a Builder rebuilt from its JSON definition: no error and a result
+*shorter* than the placeholder by exactly the unused part of the dummy exclusions. -/
+theorem documented_lost_shorter (base algLen digestLen : Nat) (l : List Range) (hne : l ≠ [])
+    (hlt : exclSize l < 161) :
+    let f := { documented base algLen digestLen l with lost := true }
+    f.run = .ok f.signedLen ∧ f.signedLen + (161 - exclSize l) = f.placeholderLen := by
+  intro f
+  refine ⟨flow_lost_unpadded f rfl, ?_⟩
+  have hemp : l.isEmpty = false := by
+    cases l with
+    | nil => exact absurd rfl hne
+    | cons a t => rfl
+  have hfinal : dhSize f.dhFinal =
+      1 + (11 + exclSize l) + optField 4 (some 14) + optField 3 (some algLen) +
+        (5 + str digestLen) + (4 + str 0) + 0 := by
+    simp [f, documented, Flow.dhFinal, Flow.dh0, setExclusions, updateHash, newWith, placeholderDH,
+      dhSize, hemp, optField]
+  have h0 : dhSize f.dh0 =
+      173 + optField 4 (some 14) + optField 3 (some algLen) + (5 + str digestLen) + (4 + str 0) :=
+    dhSize_placeholder algLen digestLen
+  show f.base + dhSize f.dhFinal + (f.das.map daFinal).sum + (161 - exclSize l) =
+    f.base + dhSize f.dh0 + (f.das.map (fun d => daPlaceholder d.reserve)).sum
+  rw [hfinal, h0]
+  simp only [f, documented, List.map_nil, List.sum_nil]
+  omega
+
+/-- the documented single exclusion `(2, 3349)`: 142 bytes short -/
+example : ({ documented 0 6 32 [⟨2, 3349⟩] with lost := true } : Flow).run = .ok 106 ∧
+    ({ documented 0 6 32 [⟨2, 3349⟩] with lost := true } : Flow).placeholderLen = 248 := by decide
 
 /-! ### dynamic assertions -/
 
@@ -222,5 +389,148 @@ theorem daPlaceholder_short_iff (r : Nat) (hr : 1 ≤ r) :
   unfold daPlaceholder str
   rcases hdr_cases r with h | h | h | h | h <;>
   rcases hdr_cases (r - hdr r) with g | g | g | g | g <;> omega
+
+/-- **da_within_placeholder_fits.** When the final DataHash is not larger than the placeholder's
+and every dynamic assertion's final payload is within its placeholder slot, the flow succeeds
+with the placeholder length. -/
+theorem da_within_placeholder_fits (f : Flow) (hk : f.lost = false)
+    (hdh : dhSize f.dhFinal ≤ dhSize f.dh0)
+    (hda : ∀ d ∈ f.das, daFinal d ≤ daPlaceholder d.reserve) :
+    f.run = .ok f.placeholderLen := by
+  rw [flow_fits_iff f hk]
+  have : (f.das.map daFinal).sum ≤ (f.das.map (fun d => daPlaceholder d.reserve)).sum := by
+    generalize f.das = l at hda
+    induction l with
+    | nil => simp
+    | cons a t ih =>
+      have ha := hda a (List.mem_cons_self ..)
+      have iht := ih (fun d hd => hda d (List.mem_cons_of_mem _ hd))
+      simp only [List.map_cons, List.sum_cons]
+      omega
+  omega
+
+/-- A dropped `Binary` content always fits: the placeholder slot itself stays. -/
+theorem daFinal_binary (r c : Nat) : daFinal ⟨r, c, .binary⟩ = daPlaceholder r := rfl
+
+/-- **da_single_fits_iff.** One dynamic assertion with CBOR or JSON content, DataHash of the
+placeholder's size: the flow succeeds iff the content is at most `daPlaceholder reserve`. -/
+theorem da_single_fits_iff (f : Flow) (hk : f.lost = false) (d : Da) (hd : f.das = [d])
+    (hkind : d.kind ≠ .binary) (hdh : dhSize f.dhFinal = dhSize f.dh0) :
+    f.run = .ok f.placeholderLen ↔ d.content ≤ daPlaceholder d.reserve := by
+  rw [flow_fits_iff f hk, hd, hdh]
+  have : daFinal d = d.content := by
+    unfold daFinal
+    cases hq : d.kind <;> simp_all
+  simp only [List.map_cons, List.map_nil, List.sum_cons, List.sum_nil, this]
+  omega
+
+/-- **da_exact_reserve_fits_iff.** A dynamic assertion that returns exactly `reserve_size`
+bytes fits iff the reserve is not just past a CBOR head boundary; on 24, 25, 256, 257, 258,
+65536..65540, 2^32..2^32+8 the flow ends in the error (`da_exact_reserve_too_large`). -/
+theorem da_exact_reserve_fits_iff (f : Flow) (hk : f.lost = false) (r : Nat) (k : DaKind)
+    (hr : 1 ≤ r) (hd : f.das = [⟨r, r, k⟩]) (hkind : k ≠ .binary)
+    (hdh : dhSize f.dhFinal = dhSize f.dh0) :
+    f.run = .ok f.placeholderLen ↔
+      ¬ (r = 24 ∨ r = 25 ∨ r = 256 ∨ r = 257 ∨ r = 258 ∨ (65536 ≤ r ∧ r ≤ 65540) ∨
+         (4294967296 ≤ r ∧ r ≤ 4294967304)) := by
+  rw [da_single_fits_iff f hk ⟨r, r, k⟩ hd hkind hdh, ← daPlaceholder_short_iff r hr]
+  have := daPlaceholder_le r hr
+  show r ≤ daPlaceholder r ↔ _
+  omega
+
+theorem da_exact_reserve_too_large (f : Flow) (hk : f.lost = false) (r : Nat) (k : DaKind)
+    (hd : f.das = [⟨r, r, k⟩]) (hkind : k ≠ .binary) (hdh : dhSize f.dhFinal = dhSize f.dh0)
+    (hr : r = 24 ∨ r = 25 ∨ r = 256 ∨ r = 257 ∨ r = 258) :
+    f.run = .tooLarge := by
+  have hr1 : 1 ≤ r := by omega
+  rcases flow_len f hk with h | h
+  · exact h
+  · have := (da_exact_reserve_fits_iff f hk r k hr1 hd hkind hdh).1 h
+    exact absurd (by omega) this
+
+/-- the SDK placeholder kept as it is (no `set_data_hash_exclusions`, no rehash), one dynamic
+assertion returning exactly its reserve of 256 bytes -/
+example : (⟨0, 6, 32, none, none, false, [⟨256, 256, .cbor⟩], false⟩ : Flow).run = .tooLarge := by decide
+example : (⟨0, 6, 32, none, none, false, [⟨255, 255, .json⟩], false⟩ : Flow).run = .ok 503 := by decide
+
+/-! ### caller-supplied BoxHash / BmffHash binding -/
+
+/-- **oflow_len.** With a guarded binding (BoxHash) the result is an error or has exactly the
+placeholder length, however much the binding assertion grew when the asset was hashed. -/
+theorem oflow_len (f : OFlow) (hg : f.guarded = true) :
+    f.run = .tooLarge ∨ f.run = .ok f.placeholderLen := by
+  unfold OFlow.run
+  rw [hg]
+  exact embeddable_len _ _
+
+theorem oflow_fits_iff (f : OFlow) (hg : f.guarded = true) :
+    f.run = .ok f.placeholderLen ↔
+      f.size1 + (f.das.map daFinal).sum ≤
+        f.size0 + (f.das.map (fun d => daPlaceholder d.reserve)).sum := by
+  unfold OFlow.run
+  rw [hg, fits_iff]
+  unfold OFlow.signedLen OFlow.placeholderLen
+  omega
+
+/-- An empty BoxHash (3 bytes of CBOR) that grows to 1175 bytes when the asset's boxes are
+hashed: the error — before the repair `fixes/C15-embeddable-boxhash-too-large.patch` this
+returned 1172 bytes more than the placeholder. -/
+example : (⟨2000, true, 3, 1175, []⟩ : OFlow).run = .tooLarge := by decide
+example : (⟨2000, true, 1500, 1175, []⟩ : OFlow).run = .ok 3500 := by decide
+
+/-- Not guarded (BmffHash): a grown binding yields a longer result. -/
+theorem oflow_unguarded_longer (f : OFlow) (hg : f.guarded = false)
+    (h : f.placeholderLen < f.signedLen) : f.run = .ok f.signedLen := by
+  unfold OFlow.run
+  rw [hg]
+  exact unguarded_may_be_longer _ _ h
+
+/-! ### the legacy pair `data_hashed_placeholder` / `sign_data_hashed_embeddable` -/
+
+/-- Same contract (by construction of `pad_to_size`: exact size or `JumbfCreationError`). -/
+theorem legacy_len (f : Legacy) (ph : Nat) : f.run ph = .tooLarge ∨ f.run ph = .ok ph := by
+  unfold Legacy.run
+  by_cases h : dhSize f.adjusted ≤ dhSize f.dh0
+  · right; simp [h]
+  · left; simp [h]
+
+/-- **legacy_fits_iff.** Against the SDK's own legacy placeholder (ten dummy ranges, *no* hash
+reserved) a non-empty exclusion list fits iff
+`exclSize l + str algLen + str hashLen ≤ 169` — with sha256 that is `exclSize l ≤ 128`: at most
+seven one-byte ranges, not the ten the placeholder is documented to hold. -/
+theorem legacy_fits_iff (algLen hashLen ph : Nat) (l : List Range) (hne : l ≠ []) :
+    (⟨algLen, none, l, hashLen⟩ : Legacy).run ph = .ok ph ↔
+      exclSize l + str algLen + str hashLen ≤ 169 := by
+  have hemp : l.isEmpty = false := by
+    cases l with
+    | nil => exact absurd rfl hne
+    | cons a t => rfl
+  have hadj : dhSize (⟨algLen, none, l, hashLen⟩ : Legacy).adjusted =
+      1 + (11 + exclSize l) + optField 4 (some 14) + optField 3 (some algLen) +
+        (5 + str hashLen) + (4 + str 0) + 0 := by
+    simp [Legacy.adjusted, newWith, dhSize, hemp, optField]
+  have h0 : dhSize (⟨algLen, none, l, hashLen⟩ : Legacy).dh0 =
+      173 + optField 4 (some 14) + optField 3 (some 6) + (5 + str 0) + (4 + str 0) :=
+    dhSize_placeholder 6 0
+  unfold Legacy.run
+  rw [hadj, h0]
+  have e1 : optField 3 (some algLen) = 1 + 3 + str algLen := rfl
+  have e2 : optField 3 (some 6) = 11 := by decide
+  have e3 : str 0 = 1 := by decide
+  rw [e1, e2, e3]
+  constructor
+  · intro h
+    by_cases hc : 1 + (11 + exclSize l) + optField 4 (some 14) + (1 + 3 + str algLen) +
+        (5 + str hashLen) + (4 + 1) + 0 ≤ 173 + optField 4 (some 14) + 11 + (5 + 1) + (4 + 1)
+    · omega
+    · simp [hc] at h
+  · intro h
+    have hc : 1 + (11 + exclSize l) + optField 4 (some 14) + (1 + 3 + str algLen) +
+        (5 + str hashLen) + (4 + 1) + 0 ≤ 173 + optField 4 (some 14) + 11 + (5 + 1) + (4 + 1) := by
+      omega
+    simp [hc]
+
+example : (⟨6, none, List.replicate 7 ⟨0, 2⟩, 32⟩ : Legacy).run 5 = .ok 5 := by decide
+example : (⟨6, none, List.replicate 8 ⟨0, 2⟩, 32⟩ : Legacy).run 5 = .tooLarge := by decide
 
 end C2pa.C15
